@@ -60,6 +60,16 @@ impl Append for Tagged {
     fn flush(&self) {}
 }
 
+/// Destroying a replaced configuration takes time: one scheduling point per configuration (its first appender), so
+/// that other threads can run between a reconfiguration's swap and whatever it does after the old snapshot is gone.
+impl Drop for Tagged {
+    fn drop(&mut self) {
+        if self.tag.ends_with('0') {
+            sched::yield_now();
+        }
+    }
+}
+
 /// configuration A: the probed logger "t" has A0, A1 (+ root A2, non-additive logger so only A0,A1);
 /// configuration B has three appenders on "t" — a different table size, so a mixed snapshot indexes
 /// out of range or hits the wrong object
@@ -800,7 +810,8 @@ pub fn run(ctx: &Ctx) -> Report {
         (Swap { loggers: 2, records: 2, setters: vec!['B'] }, 2),
         // the new configuration switches the probed level off / the old one is switched back on
         (Swap { loggers: 1, records: 2, setters: vec!['D'] }, b + 1),
-        (Swap { loggers: 2, records: 1, setters: vec!['D', 'A'] }, b),
+        // (four threads, and the replaced configuration's destruction is a scheduling point of its own: bound 3 at most)
+        (Swap { loggers: 2, records: 1, setters: vec!['D', 'A'] }, b.min(3)),
     ];
     if ctx.tier == crate::engine::Tier::Thorough {
         // four controlled threads: two loggers against two reconfiguring threads
